@@ -160,6 +160,12 @@ func (l *Lexer) Split() []*Token {
 			tokStart = i + 1
 		case '"', '\'':
 			if !strStart {
+				// Flush the word that ends where the string literal starts
+				curr = l.Query[tokStart : tokStart+min(tokLen, l.Length-tokStart)]
+				if token := buildToken(curr, tokStartPos); token != nil {
+					ret = append(ret, token)
+				}
+				tokLen = 0
 				strStart = true
 				strStartChar = char
 				tokStartPos = i
@@ -174,11 +180,20 @@ func (l *Lexer) Split() []*Token {
 				}
 				ret = append(ret, token)
 				tokLen = 0
+				// The next token starts after the closing quote
+				tokStartPos = i + 1
+				tokStart = i + 1
 			} else {
 				tokLen++
 			}
 		case '`':
 			if !strStart {
+				// Flush the word that ends where the quoted name starts
+				curr = l.Query[tokStart : tokStart+min(tokLen, l.Length-tokStart)]
+				if token := buildToken(curr, tokStartPos); token != nil {
+					ret = append(ret, token)
+				}
+				tokLen = 0
 				strStart = true
 				strStartChar = char
 				tokStartPos = i
@@ -193,6 +208,9 @@ func (l *Lexer) Split() []*Token {
 				}
 				ret = append(ret, token)
 				tokLen = 0
+				// The next token starts after the closing quote
+				tokStartPos = i + 1
+				tokStart = i + 1
 			} else {
 				tokLen++
 			}
